@@ -7,7 +7,7 @@
 (*  QR  : Q orthogonal, R upper triangular exactly, QR = M (64 n eps).     *)
 (*  Eig : Eigenvalues returns the planted spectrum (1e-10 ||M||), it sums  *)
 (*        to the trace; Eigensystem returns n pairs with unit vectors,     *)
-(*        M v = lambda v (1e-9 ||M||) and, for the exact families of       *)
+(*        M v = lambda v (1e-11 ||M||) and, for the exact families of       *)
 (*        MC_Eigen, vectors parallel to the planted ones (1e-9).           *)
 (***************************************************************************)
 EXTENDS Integers, Sequences, TLC, Json, IOUtils
